@@ -97,6 +97,14 @@ PROBE_XML = [
     '<?xml version="1.0"?><!-- c --><root><item><![CDATA[cd]]></item><item><!-- only comment --></item><?pi y?>'
     '<item xml:lang="en">t</item></root>',
 ]
+# XHTML served as XML: the matcher must treat it as both XML and HTML whatever optional modules are installed
+PROBE_XHTML = [
+    '<?xml version="1.0" encoding="UTF-8"?><html xmlns="http://www.w3.org/1999/xhtml" lang="en"><head><title>t</title></head>'
+    '<body><form><input type="checkbox" checked="checked" id="i1"/><input type="text" required="required" disabled="disabled"/>'
+    '<input type="radio" name="r"/></form><p id="p1">x <a href="#a">l</a></p><p lang="de" dir="rtl">y</p></body></html>',
+]
+XHTML_SELECTORS = ['input:checked', ':required', ':disabled', ':enabled', ':link', 'p:lang(en)', ':dir(rtl)', ':indeterminate',
+                   ':root', 'p:first-child', ':default', 'a:any-link', ':read-write', 'INPUT', 'input']
 PROBE_SELECTORS = [
     'p:nth-child(2)', ':lang(en)', ':default, :indeterminate', 'li:not(.c):nth-of-type(odd)', 'div:has(> a:any-link) b',
     ':dir(rtl), :out-of-range', 'p:-soup-contains("hello")', ':defined, :root > *', 'p:nth-last-child(-n+2):is(:scope p, p)',
@@ -127,7 +135,11 @@ def gen_job(rng):
     elif r < 0.55:
         blocked = sorted(rng.sample(OPTIONAL, rng.randint(1, 3)))
     switches = rng.choice([[], [], [], [], ['-O'], ['-OO'], ['-B'], ['-O', '-B'], ['-s']])
-    if rng.random() < 0.15:
+    r0 = rng.random()
+    if r0 < 0.12:
+        probe = {'markup': rng.choice(PROBE_XHTML), 'selector': rng.choice(XHTML_SELECTORS)}
+        parser = 'xml' if 'lxml' not in blocked else 'html.parser'
+    elif r0 < 0.25:
         probe = {'markup': rng.choice(PROBE_XML), 'selector': rng.choice(XML_SELECTORS)}
         if probe['selector'].startswith('x|'):
             probe['namespaces'] = {'x': 'urn:x-test'}
